@@ -18,7 +18,9 @@
    program exits).  The value of an expression is the clock (number of events so far), so a
    value evaluated after the clean-up would be observably different. *)
 From Coq Require Import List Bool Arith.
+From C15 Require Import Gen.
 Import ListNotations.
+Local Open Scope list_scope.
 
 (* ---------------------------------------------------------------- events / state *)
 Inductive ev :=
@@ -33,7 +35,7 @@ Record st := mkst { orc : list nat; tr : list ev (* newest first *) }.
 
 Inductive out :=
 | Nrm | Brk | GBrk (* break travelling to its loop from inside a switch: C goto breaklabel *)
-| Cnt (stop:bool) | Ret (v:nat) | InV (v:nat) | Abort | Fuel.
+| Cnt (stop:bool) | Ret (vs:list nat) (* the returned values, evaluated before any clean-up *) | InV (v:nat) | Abort | Fuel.
 
 Definition res := (out * st)%type.
 
@@ -46,6 +48,16 @@ Definition cond (c:nat) (s:st) : option (nat * st) :=
   end.
 
 Definition evalx (e:nat) (s:st) : nat * st := (length (tr s), emit (EvR e) s).
+
+(* the expressions of a `return e1, e2, ...`, left to right *)
+Fixpoint evalxs (es:list nat) (s:st) : list nat * st :=
+  match es with
+  | [] => ([], s)
+  | e :: r => let (v, s1) := evalx e s in let (vs, s2) := evalxs r s1 in (v :: vs, s2)
+  end.
+
+(* the caller receives the values, first to last *)
+Definition emit_vals (vs:list nat) (s:st) : st := fold_left (fun s' v => emit (EvV v) s') vs s.
 
 Definition truthy (v:nat) : bool := negb (v =? 0).
 
@@ -108,7 +120,7 @@ Inductive stmt :=
 | In (e:nat)
 | Break
 | Continue
-| Return (e:nat)
+| Return (es:list nat)             (* return e1, ..., en  (n >= 2: the _mulret path of visitors.Return) *)
 | ReturnVoid
 | FnCall (void:bool) (b:block)     (* call of a function whose body is b *)
 with block := BNil | BCons (s:stmt) (b:block)
@@ -135,7 +147,7 @@ Definition reg_all (ks:list nat) (s:st) : st := fold_left (fun s' k => emit (EvG
 
 Definition call_result (void:bool) (r:res) : res :=
   match r with
-  | (Ret v, s1) => (Nrm, if void then s1 else emit (EvV v) s1)
+  | (Ret vs, s1) => (Nrm, if void then s1 else emit_vals vs s1)
   | (Abort, s1) => (Abort, s1)
   | (Fuel, s1) => (Fuel, s1)
   | (_, s1) => (Nrm, if void then s1 else emit (EvV 0) s1)
@@ -184,8 +196,8 @@ Fixpoint rstmt (lp:option nat) (s:stmt) (x:st) {struct s} : res :=
   | In e => let (v, x1) := evalx e x in (InV v, x1)
   | Break => (Brk, x)
   | Continue => continue_res lp x
-  | Return e => let (v, x1) := evalx e x in (Ret v, x1)
-  | ReturnVoid => (Ret 0, x)
+  | Return es => let (vs, x1) := evalxs es x in (Ret vs, x1)
+  | ReturnVoid => (Ret [], x)
   | FnCall void b => call_result void (rstmts None b [] None x)
   end
 with rstmts (lp:option nat) (b:block) (ds:list closure) (fin:option nat) (x:st) {struct b} : res :=
@@ -248,7 +260,7 @@ Inductive tstmt :=
 | TIn (e:nat) (cl:list tstmt) (needgoto:bool)   (* _expr = e; cl; [goto label] *)
 | TBreak | TGotoBreak | TContinue
 | TContinueR (c:nat) (cl:list tstmt)       (* _repeat_stop = c; cl; continue *)
-| TReturn (e:nat) (cl:list tstmt)          (* T _ret = e; cl; return _ret   (return e when cl = []) *)
+| TReturn (es:list nat) (cl:list tstmt)    (* T _ret = e; cl; return _ret  /  S _mulret; _mulret.r1 = e1; ...; cl; return _mulret *)
 | TReturnVoid
 | TCall (void:bool) (b:list tstmt).
 
@@ -317,8 +329,8 @@ Fixpoint texec (s:tstmt) (x:st) {struct s} : res :=
     | None => (Abort, x)
     | Some (v, x1) => after_cleanup (Cnt (truthy v)) (seq_exec texec cl x1)
     end
-  | TReturn e cl => let (v, x1) := evalx e x in after_cleanup (Ret v) (seq_exec texec cl x1)
-  | TReturnVoid => (Ret 0, x)
+  | TReturn es cl => let (vs, x1) := evalxs es x in after_cleanup (Ret vs) (seq_exec texec cl x1)
+  | TReturnVoid => (Ret [], x)
   | TCall void b => call_result void (seq_exec texec b x)
   end.
 
@@ -378,6 +390,13 @@ Definition head_is_doexpr (ctx:list frame) : bool :=
 
 Definition is_bnil (b:block) : bool := match b with BNil => true | _ => false end.
 
+(* visitors.In: the goto is omitted only when the `in` is the last statement (nothing follows: rest = BNil)
+   of the block that is directly the do-expression's body; the rule is the scraped one - if visitors.In
+   stops matching it the model no longer vouches for any placement *)
+Definition omit_goto (rest:block) (ctx:list frame) : bool :=
+  if gen_in_goto_omitted_only_for_last_statement_of_doexpr_block
+  then is_bnil rest && head_is_doexpr ctx else true.
+
 Definition break_stmt (ctx:list frame) : tstmt :=
   match nearest is_loop_or_switch ctx with Some KSwitch => TGotoBreak | _ => TBreak end.
 
@@ -410,7 +429,7 @@ Fixpoint cstmt (ctx:list frame) (lastin:bool) (s:stmt) {struct s} : list tstmt :
     | Some (KLoop (Some c)) => [TContinueR c (close_upscopes is_loop ctx)]
     | _ => close_upscopes is_loop ctx ++ [TContinue]
     end
-  | Return e => [TReturn e (close_upscopes is_func ctx)]
+  | Return es => [TReturn es (close_upscopes is_func ctx)]
   | ReturnVoid => close_upscopes is_func ctx ++ [TReturnVoid]
   | FnCall void b => [TCall void (cbody [newframe KFunc] (newframe KBlock) b false TlPlain)]
   end
@@ -424,7 +443,7 @@ with cbody (ctx:list frame) (cur:frame) (b:block) (lastbf:bool) (tl:tailk) {stru
          context.scope = the registering scope, which is then marked `closing` *)
       TReg d :: cbody ctx (add_defer cur (TRun d :: cbody (set_closing cur :: ctx) (newframe KBlock) body false TlPlain))
                   rest false tl
-    | _ => cstmt (cur :: ctx) (is_bnil rest && head_is_doexpr ctx) s ++ cbody ctx cur rest (is_breakflow s) tl
+    | _ => cstmt (cur :: ctx) (omit_goto rest ctx) s ++ cbody ctx cur rest (is_breakflow s) tl
     end
   end
 with ccases (ctx:list frame) (cs:cases) {struct cs} : list (list tstmt) :=
@@ -532,4 +551,23 @@ Fixpoint stack_run (evs:list ev) (s:list nat) : option (list nat) :=
 
 Definition run_discipline (x:st) (r:res) : Prop :=
   exists new s', tr (snd r) = new ++ tr x /\ stack_run (rev new) [] = Some s' /\ (fst r = Nrm -> s' = []).
+
+(* a goto-less `in` ([TIn e cl false]) occurs only as the LAST statement of the body of its do-expression
+   (control then falls from the `in` to the end of the do-expression); statement of C15_in_goto_placement *)
+Fixpoint nf (s:tstmt) : bool :=
+  match s with
+  | TDo b | TDeferred b | TWhile _ b | TRepeat b | TFor _ b | TCall _ b => forallb nf b
+  | TIf _ t e => forallb nf t && forallb nf e
+  | TUntil _ cl | TContinueR _ cl | TReturn _ cl => forallb nf cl
+  | TSwitch _ cs d => forallb (fun b => forallb nf b) cs && forallb nf d
+  | TStmtExpr b =>
+    (fix body (l:list tstmt) : bool :=
+       match l with
+       | [] => true
+       | [TIn _ cl false] => forallb nf cl          (* the only place where the goto may be missing *)
+       | x :: r => nf x && body r
+       end) b
+  | TIn _ cl needgoto => needgoto && forallb nf cl
+  | _ => true
+  end.
 
